@@ -26,7 +26,8 @@ theorem copy_result_coherent (p : Path) (kp : Bool) (s : St) (c : T)
 
 /-- Every public operation (query, append_child, item / slice assignment, waveform / repetition
 setters, unroll, unroll_children, split_one_child, encapsulate, _merge_single_child, cleanup,
-reverse_inplace, roll_constant_waveforms, copy_tree_structure) preserves coherence, whatever its
+reverse_inplace, roll_constant_waveforms, copy_tree_structure, add_measurements,
+get_measurement_windows(drop=True)) preserves coherence, whatever its
 arguments and whether or not it raises.  `Pre`: sub-trees handed in are coherent programs (fresh or
 detached); children are appended only to nodes without waveform. -/
 theorem op_preserves (op : Op) (s : St) (hs : Coherent s.tree) (hp : Pre op s) :
